@@ -223,6 +223,7 @@ DESIGN_CONFIGS = {   # name: (N, MaxTime, faulty node, fault kind, dial kind, th
     "3restart1": (3, 12, 1, "restart", "connect", False),
     "4silent": (4, 12, 3, "silent", "reconnect", True),
     "4restart": (4, 14, 1, "restart", "reconnect", True),
+    "3lossy": (3, 10, 0, "lossy", "reconnect", True),
 }
 
 
